@@ -333,9 +333,9 @@ def diff_key(cls, label):
 def run_programs(ctx, res, jinja2, runner, boost):
     rng = ctx.rng("programs")
     pools = expr_pools(ctx, rng)
-    n_pg = ctx.pick(260, 5000) * boost
-    n_tg = ctx.pick(60, 800) * boost
-    n_ex = ctx.pick(80, 1200) * boost
+    n_pg = ctx.pick(260, 1800) * boost
+    n_tg = ctx.pick(60, 300) * boost
+    n_ex = ctx.pick(80, 500) * boost
     stats = {"programs": 0, "renders": 0, "lcode_templates_ok": 0, "lcode_syntax_rejected": 0, "base_ok": 0, "base_err": {},
              "features": {}, "classes": {}, "erased": {}, "e2e_differences": 0, "lcode_differences": 0}
     distinct = set()
@@ -507,7 +507,23 @@ def consumer_probes(ctx, res, jinja2, runner):
                     f"{src!r} with xs=[3, 1, 2]: sync mode gives {ra!r}, async mode {rb!r} — the producer returns an async generator in async "
                     f"mode and `{key}` has no async variant (DESIGN F17)",
                     {"templates": {"main": src}, "main": "main", "spec": G.PROBE_DATA, "cls": "Environment", "autoescape": False})
-    return {"evaluations": n, "probes": len(probes), "consumers_differing": sorted(found), "generator_repr_only": stringified}
+    # how much of a one-shot iterable each async variant consumes (laziness parity)
+    names = [k for k, f in jinja2.Environment(enable_async=True).filters.items() if getattr(f, "jinja_async_variant", False)]
+    lazy = {}
+    for name, src in G.consumption_probes(names):
+        base, outs, diffs = L.oracle(jinja2, runner, "Environment", {"main": src}, "main", G.CONSUMPTION_DATA, False, [L.MODES[2], L.MODES[3]])
+        n += len(outs)
+        if diffs and name not in lazy:
+            d = dict(outs)
+            a, b = diffs[0]
+            lazy[name] = (src, a, d[a], b, d[b])
+    for name, (src, a, ra, b, rb) in sorted(lazy.items()):
+        res.violate(f"C09:consumption:{name}",
+                    f"{src!r} with g a generator over [3, 1, 3, 2, 5, 4]: {a} gives {ra!r} but {b} gives {rb!r} — the async variant of `{name}` "
+                    "consumes a different amount of its (one-shot) input than the sync filter",
+                    {"templates": {"main": src}, "main": "main", "spec": G.CONSUMPTION_DATA, "cls": "Environment", "autoescape": False})
+    return {"evaluations": n, "probes": len(probes), "consumers_differing": sorted(found), "generator_repr_only": stringified,
+            "consumption_differing": sorted(lazy)}
 
 
 # ------------------------------------------------------------------------------------------------------------------
